@@ -180,7 +180,7 @@ def run_shard(shard, ctx):
     strat = sm.histories(("core", "maint", "branch"))
     if shard["i"] == 2:
         # directed scenarios: exhaust two variables, then a constraint over both; refutable extras, then the same query without
-        strat = st.one_of(sm.scenario_exhaust_then_bridge(), sm.scenario_extras_do_not_stick())
+        strat = st.one_of(sm.scenario_exhaust_then_bridge(), sm.scenario_extras_do_not_stick(), sm.scenario_constant_in_list())
     hyp.run(strat, shard["n"], shard["hseed"], body, ctx)
 
 
